@@ -2,6 +2,7 @@ import Generated.Facts
 import Generated.Trans
 import Model.Frame
 import Proofs.Frame
+import Props.C05
 /-
 Tie obligations for C05: the constants the theorems were proved over are the constants
 extracted from /repo/compress on this run.
@@ -46,3 +47,38 @@ relative to a `readBlock` primitive that already includes this; here it is pinne
 theorem tie_C05_read_error_branch :
     Generated.Trans.Reader.readErrorBranch =
       ["r.data = r.data[:0]", "r.pos = 0", "return 0, errors.Wrap(err, \"read next block\")"] := by decide
+
+
+/-! ### the reader theorems about the TRANSLATED `Read` -/
+
+open Model Model.Frame in
+/-- a schedule of `Read` calls executed with the translated `Read` -/
+def transReadSeq (c : Codec) : RState → List Nat → List (Except RErr Bytes)
+  | _, [] => []
+  | s, k :: ks => (Generated.Trans.Reader.read c s k).2 :: transReadSeq c (Generated.Trans.Reader.read c s k).1 ks
+
+open Model Model.Frame in
+theorem tie_C05_readSeq (c : Codec) (sizes : List Nat) : ∀ s : RState, transReadSeq c s sizes = readSeq c s sizes := by
+  induction sizes with
+  | nil => intro s; rfl
+  | cons k ks ih =>
+    intro s
+    simp only [transReadSeq, readSeq, tie_C05_read]
+    rw [ih]
+
+open Model Model.Frame in
+/-- **C05 round trip for the code as translated**: any frame sequence written by `Compress`, read back by the translated
+`Read` under any schedule of read sizes, yields a prefix of the concatenated payloads -/
+theorem tie_C05_translated_read_roundtrip (c : Codec) (hc : c.WF) (fs : List (Nat × Bytes)) (hfs : C05.WFFrames c fs)
+    (sizes : List Nat) :
+    ∃ rest, okBytes (transReadSeq c (RState.init (C05.stream c fs)) sizes) ++ rest = C05.payloads fs := by
+  rw [tie_C05_readSeq]
+  exact C05_roundtrip_fresh c hc fs hfs sizes
+
+open Model Model.Frame in
+/-- **… and hands out only verified bytes**, also on reads that follow a failure -/
+theorem tie_C05_translated_read_only_verified (c : Codec) (orig : Bytes) (sizes : List Nat) (out : Bytes)
+    (h : Except.ok out ∈ transReadSeq c (RState.init orig) sizes) :
+    ∃ d, (d = [] ∨ C05.VerifiedIn c orig d) ∧ ∃ i k, out = (d.drop i).take k := by
+  rw [tie_C05_readSeq] at h
+  exact C05_only_verified_bytes_fresh c orig sizes out h
